@@ -1,5 +1,17 @@
-"""Evidence, exit codes, known findings (DESIGN.md section 6)."""
+"""Per-property check: generate and discharge the property's obligations, write evidence, decide the exit code.
+
+Exit codes (DESIGN.md section 6): 0 all obligations discharged (known findings listed); 1 VIOLATION; 2 undecided
+only; 3 checker error (zero obligations, unsatisfiable requires, engine crash).
+"""
 import hashlib
+import json
+import multiprocessing as mp
+import os
+import sys
+import time
+import traceback
+
+ROOT = os.path.dirname(os.path.dirname(os.path.abspath(__file__)))
 
 
 def dedupe(obs):
@@ -15,5 +27,274 @@ def dedupe(obs):
     return out
 
 
+def all_targets(eng):
+    """(qual, cls) pairs to verify: every function under contract, per receiver class where the contract says so."""
+    from . import spec as specmod
+    out = []
+    for (qual, cls), sp in specmod.FUNCS.items():
+        if qual not in eng.repo.funcs:
+            out.append((qual, cls, 'missing'))
+            continue
+        if sp.trusted:
+            continue
+        fi = eng.repo.funcs[qual]
+        out.append((qual, cls or fi.cls, 'ok'))
+    return out
+
+
+def props_of_spec(sp):
+    ps = set(sp.props)
+    for cl in sp.requires + sp.ensures + sp.ensures_raises:
+        if cl.props:
+            ps |= set(cl.props)
+    return ps
+
+
+_ENG = None
+
+
+def _gen_worker(target):
+    qual, cls = target
+    from . import smt
+    t0 = time.time()
+    try:
+        obs, probs = _ENG.verify(qual, cls)
+        obs = dedupe(obs)
+        out = []
+        for ob in obs:
+            out.append(dict(name=ob.name, func=ob.func, kind=ob.kind, props=list(ob.props), detail=ob.detail,
+                            expect_sat=ob.expect_sat, smt2=ob.smt2, clause=ob.meta.get('clause', ''),
+                            axioms=ob.axioms_used, path=getattr(ob, 'path', [])))
+        return target, out, probs, time.time() - t0, None
+    except Exception:
+        return target, [], [], time.time() - t0, traceback.format_exc()
+
+
+def generate(eng, targets, jobs=16):
+    global _ENG
+    _ENG = eng
+    results = []
+    if jobs > 1 and len(targets) > 1:
+        with mp.get_context('fork').Pool(min(jobs, len(targets))) as pool:
+            for r in pool.imap_unordered(_gen_worker, targets, chunksize=1):
+                results.append(r)
+    else:
+        for t in targets:
+            results.append(_gen_worker(t))
+    results.sort(key=lambda r: (r[0][0], r[0][1] or ''))
+    return results
+
+
+def unique_names(records):
+    """Obligation names are made unique per function by a stable ordinal suffix."""
+    count = {}
+    for r in records:
+        count[r['name']] = count.get(r['name'], 0) + 1
+    seen = {}
+    for r in records:
+        if count[r['name']] > 1:
+            k = seen.get(r['name'], 0)
+            seen[r['name']] = k + 1
+            r['name'] = '%s@%d' % (r['name'], k)
+    return records
+
+
+def solve_records(records, timeout_ms, jobs):
+    from . import smt
+    tasks = [(i, r['smt2'], timeout_ms, r['expect_sat'], ('cvc5',)) for i, r in enumerate(records)]
+    out = [None] * len(records)
+    if jobs > 1 and len(tasks) > 1:
+        with mp.get_context('fork').Pool(jobs) as pool:
+            for idx, res, dt, model, reason, backend, extra in pool.imap_unordered(smt._worker, tasks, chunksize=1):
+                out[idx] = (res, dt, model, reason, backend, extra)
+    else:
+        for t in tasks:
+            idx, res, dt, model, reason, backend, extra = smt._worker(t)
+            out[idx] = (res, dt, model, reason, backend, extra)
+    for r, (res, dt, model, reason, backend, extra) in zip(records, out):
+        r['result'], r['seconds'], r['model'], r['reason'], r['backend'] = res, dt, model, reason, backend
+        if r['expect_sat']:
+            r['status'] = {'sat': 'discharged', 'unsat': 'refuted',
+                           'unknown': 'discharged' if reason == 'saturated' else 'undecided'}[res]
+        else:
+            r['status'] = {'unsat': 'discharged', 'sat': 'refuted',
+                           'unknown': 'unproved' if reason == 'saturated' else 'undecided'}[res]
+    return records
+
+
+def load_json(path, default):
+    try:
+        with open(path) as f:
+            return json.load(f)
+    except FileNotFoundError:
+        return default
+
+
 def run_property(eng, prop, args):
-    raise NotImplementedError
+    from . import spec as specmod, smt
+    t0 = time.time()
+    tier = args.tier
+    seed = int(os.environ.get('VERIF_SEED', '0') or 0)
+    targets = []
+    missing = []
+    for qual, cls, st in all_targets(eng):
+        sp = specmod.lookup(eng.repo, qual, cls) if st == 'ok' else specmod.FUNCS.get((qual, cls))
+        if prop != 'all' and prop not in props_of_spec(sp):
+            continue
+        if st == 'missing':
+            missing.append(qual)
+        else:
+            targets.append((qual, cls))
+    gen = generate(eng, sorted(set(targets)), args.jobs)
+    records = []
+    problems = []
+    crashes = []
+    gen_s = 0.0
+    for target, obs, probs, dt, err in gen:
+        gen_s += dt
+        if err:
+            crashes.append((target, err))
+        for r in obs:
+            if prop == 'all' or prop in r['props']:
+                records.append(r)
+        for p in probs:
+            problems.append(p)
+    unique_names(records)
+    solve_records(records, args.timeout, args.jobs)
+    return finish(eng, prop, tier, seed, targets, records, problems, crashes, missing, t0, gen_s, args)
+
+
+def finish(eng, prop, tier, seed, targets, records, problems, crashes, missing, t0, gen_s, args):
+    known = load_json(os.path.join(ROOT, 'known_findings.json'), {'findings': [], 'fixed': []})
+    baseline = load_json(os.path.join(ROOT, 'baseline_obligations.json'), {})
+    base_names = set(baseline.get('discharged', []))
+    lines = []
+    violations = []
+    undecided = []
+    known_hits = []
+    kf = {}
+    for f in known.get('findings', []):
+        for o in f.get('obligations', []):
+            kf[o] = f
+    for r in records:
+        if r['status'] == 'discharged':
+            continue
+        base = r['name'].split('@')[0]
+        f = kf.get(r['name']) or kf.get(base)
+        if f is not None and (prop == 'all' or prop in f.get('properties', [prop])):
+            known_hits.append((f, r))
+            continue
+        if r['status'] == 'refuted' or r['name'] in base_names or base in base_names:
+            violations.append(r)
+        else:
+            undecided.append(r)
+    # functions out of reach after an edit: their obligations cannot be generated (UNDECIDED, never a violation)
+    status = 0
+    outdir = os.path.join(ROOT, 'replays')
+    os.makedirs(outdir, exist_ok=True)
+    for r in violations:
+        path = os.path.join('replays', '%s-%s.json' % (prop, hashlib.sha1(r['name'].encode()).hexdigest()[:12]))
+        from . import replay
+        found = replay.attempt(eng, prop, r, os.path.join(ROOT, path), seed)
+        print('VIOLATION property=%s replay=%s obligation=%s%s' % (
+            prop, path, r['name'], '' if found else ' no-failing-input-found'))
+        status = 1
+    printed = set()
+    for f, r in known_hits:
+        if f['id'] in printed:
+            continue
+        printed.add(f['id'])
+        print('KNOWN-FINDING: property=%s %s (%s: obligation %s %s)' % (prop, f['what'], f['id'], r['name'], r['status']))
+    for r in undecided:
+        print('UNDECIDED property=%s obligation=%s (%s %s) %s' % (prop, r['name'], r['status'], r['reason'],
+                                                                   ('clause: ' + r['clause'][:160]) if r['clause'] else ''))
+    for p in problems:
+        print('UNDECIDED property=%s function=%s out of reach: %s' % (prop, p[0], p[2]))
+    for q in missing:
+        print('UNDECIDED property=%s function under contract no longer exists: %s' % (prop, q))
+    for target, err in crashes:
+        print('CHECKER-ERROR in %s\n%s' % (target, err))
+    n = len(records)
+    d = sum(1 for r in records if r['status'] == 'discharged')
+    if status == 0:
+        if crashes or n == 0:
+            status = 3
+        elif undecided or problems or missing:
+            status = 2
+    write_evidence(eng, prop, tier, seed, targets, records, problems, known_hits, violations, undecided, t0, gen_s, args)
+    print('%s: %d obligations, %d discharged, %d violations, %d known, %d undecided, %d functions, %.1fs' % (
+        prop, n, d, len(violations), len(known_hits), len(undecided) + len(problems), len(targets), time.time() - t0))
+    if getattr(args, 'verbose', False):
+        for r in sorted(records, key=lambda r: -r['seconds'])[:10]:
+            print('   %6.2fs %-10s %s' % (r['seconds'], r['status'], r['name']))
+    return status
+
+
+def write_evidence(eng, prop, tier, seed, targets, records, problems, known_hits, violations, undecided, t0, gen_s, args):
+    if prop == 'all':
+        return
+    from . import smt
+    n = len(records)
+    d = sum(1 for r in records if r['status'] == 'discharged')
+    kinds = {}
+    backends = {}
+    axioms = {}
+    for r in records:
+        kinds[r['kind']] = kinds.get(r['kind'], 0) + 1
+        if r['status'] == 'discharged':
+            backends[r['backend']] = backends.get(r['backend'], 0) + 1
+        for a, k in r['axioms']:
+            axioms.setdefault(k, set()).add(a)
+    samples = []
+    for r in records:
+        if r['kind'] == 'post' and len(samples) < 3:
+            samples.append({'obligation': r['name'], 'clause': r['clause'], 'status': r['status'],
+                            'backend': r['backend'], 'seconds': round(r['seconds'], 3),
+                            'smtlib_head': r['smt2'][-1500:]})
+    trusted = trusted_base(axioms)
+    ev = {
+        'property_id': prop, 'tier': tier, 'seed': seed, 'level': 'proof',
+        'coverage': {
+            'obligations': n, 'discharged': d,
+            'checker_cmd': 'python3-vt -m pyvc.main %s --tier %s' % (prop, tier),
+            'trusted_base': trusted,
+            'functions_under_contract': sorted('%s[%s]' % t if t[1] else t[0] for t in targets),
+            'obligations_by_kind': kinds,
+            'discharged_by_backend': backends,
+            'solver_seconds': round(sum(r['seconds'] for r in records), 2),
+            'vcgen_seconds': round(gen_s, 2),
+            'source_digest': eng.repo.digest,
+            'undischarged': [{'obligation': r['name'], 'status': r['status'], 'reason': r['reason']}
+                             for r in records if r['status'] != 'discharged'],
+            'out_of_reach': [{'function': p[0], 'why': p[2]} for p in problems],
+            'known_findings': sorted({f['id'] for f, _ in known_hits}),
+            'samples': samples,
+            'bounded': [],
+        },
+        'assumptions': assumptions(),
+        'wall_s': round(time.time() - t0, 2),
+        'violations': len(violations),
+    }
+    os.makedirs(os.path.join(ROOT, 'evidence'), exist_ok=True)
+    with open(os.path.join(ROOT, 'evidence', prop + '.json'), 'w') as f:
+        json.dump(ev, f, indent=1, default=str)
+
+
+def trusted_base(axioms):
+    out = ['PyVC symbolic semantics of the Python subset (pyvc/engine.py, loops.py, contracts.py)',
+           'z3 5.1.0 (python3-vt), /usr/bin/cvc5 1.0.3 for queries z3 leaves open',
+           'sidecar contracts in /verif/specs transcribe the property statements']
+    for kind in sorted(axioms):
+        out.append('%s axioms used: %s' % (kind, ', '.join(sorted(axioms[kind]))))
+    return out
+
+
+def assumptions():
+    return ['A1 floats are mathematical reals (no rounding, overflow, inf; NaN is a distinguished constant)',
+            'A2 integers are mathematical',
+            'A3 linear-algebra identities of numpy.linalg / numpy.dot',
+            'A4 NumPy / SciPy contracts as encoded in pyvc/lib*.py (mask indexing, where, unique, argmax, cumsum, cdist, ...)',
+            'A5 scikit-learn estimators are deterministic functions of (input, random_state)',
+            'A6 CPython contracts: dict insertion order, max/min return the first extremum, copy.deepcopy',
+            'A7 joblib runs each task exactly once and returns results in task order; dict item writes are atomic',
+            'A8 arm lists are type-homogeneous', 'A10 termination is not proved']
